@@ -29,7 +29,7 @@ def generate(tier, rng):
     cases = []
     k = 0
     grids = ["unit", "const5", "uneven", "uneven2", "three"] if tier == "quick" else list(c03.GRIDS)
-    extras = [[], ["r"], ["r", "g"], ["g", "r"]]
+    extras = [[], ["r"], ["r", "g"], ["g", "r"], ["r", "h"], ["g"]]
     for gname in grids:
         grid = c03.GRIDS[gname]
         n = len(grid)
